@@ -422,6 +422,15 @@ def _run_impl(case: dict) -> list:
                     err = 'sent-' + ','.join(other)
                 o = {'err': err, 'events': acks + list(events)}
             o.update(state())
+            if case.get('focus') == 'evict':
+                # nobody but the rooms holds user objects in this family: whoever is no longer in any room's user list is
+                # dropped by the weak dictionary (CPython frees an unreferenced object at once; a full collection per step
+                # would only matter for objects caught in reference cycles, and costs more than the rest of the case)
+                flags: dict = {}
+                for room in rm.rooms.values():
+                    for u in room.users:
+                        flags.setdefault(_uname(u), set()).add(bool(u.privileged))
+                o['room_priv'] = {k: sorted(v) for k, v in flags.items()}
             obs.append(o)
 
     loop = SimLoop()
@@ -930,9 +939,62 @@ def _gen_local_case(rng: random.Random) -> dict:
     return {'me': 0, 'blocked_room': [], 'blocked_priv': [], 'ops': [['hold']] + ops[:MAX_LEN], 'focus': 'local', 'model': False}
 
 
+def _gen_evict_case(rng: random.Random) -> dict:
+    """monitor-only: the application holds NO user object (no `hold`): a user exists only while a room's user list holds
+    it, is dropped when it leaves the last room and is created afresh when it is referenced again — with what the server
+    said about its privileges meanwhile (lists, additions, status updates) in between"""
+    kinds = ['userJoined', 'userJoined', 'userLeft', 'userLeft', 'joinRoom', 'leaveRoom', 'userStatus', 'userStatus',
+             'userStatus', 'privilegedUsers', 'addPrivileged', 'userStats', 'roomChat']
+    ops = [_gen_op(rng, rng.choice(kinds)) for _ in range(rng.choice([4, 6, 8, 12]))]
+    return {'me': 0, 'blocked_room': [], 'blocked_priv': [], 'ops': ops[:MAX_LEN], 'focus': 'evict', 'model': False}
+
+
+def _monitor_evict(case: dict, obs: list) -> list[Violation]:
+    """What the notifications imply about a user's privileges when the user object did not live through all of them: the
+    flag of a referenced user is the LAST word of the server about that user (a list it is / is not in, an addition, a
+    status update) — or, for an object created after that word was spoken, membership of the privileged-users set as the
+    lists and additions define it (the library keeps no per-user memory beyond that set). Anything else is a flag no
+    notification implies."""
+    vs: list[Violation] = []
+    last_word: dict = {}
+    set_a: set = set()
+    for idx, (op, o) in enumerate(zip(case['ops'], obs)):
+        if str(o['err']).startswith('HARNESS') or not _wellformed(op):
+            break
+        if o['err'] != 'ok':
+            vs.append(Violation(f'C19-handler-raised-{op[0]}', f'op #{idx} {op[0]}: handler raised on a well-formed message',
+                                case, observed=o['err']))
+            break
+        if op[0] == 'privilegedUsers':
+            set_a = set(op[1])
+            for u in range(N_USERS):
+                last_word[u] = u in set_a
+        elif op[0] == 'addPrivileged':
+            set_a.add(op[1])
+            last_word[op[1]] = True
+        elif op[0] == 'userStatus':
+            last_word[op[1]] = bool(op[3])
+        for name, flags in (o.get('room_priv') or {}).items():
+            u = name
+            allowed = {u in set_a}
+            if u in last_word:
+                allowed.add(last_word[u])
+            if len(flags) != 1 or flags[0] not in allowed:
+                vs.append(Violation(
+                    'C19-replica-privileges-after-eviction',
+                    f'op #{idx} {op[0]}: user {u} referenced by a room has privileged={flags} but the last word of the server '
+                    f'about this user is {last_word.get(u, "nothing")} and the privileged-users lists / additions '
+                    f'{"contain" if u in set_a else "do not contain"} it', case, observed=flags, required=sorted(allowed)))
+                return vs
+    return vs
+
+
 def _gen_case(rng: random.Random) -> dict:
-    if rng.random() < 0.08:
+    r0 = rng.random()
+    if r0 < 0.08:
         return _gen_local_case(rng)
+    if r0 < 0.16:
+        return _gen_evict_case(rng)
     focus = rng.choice(['any', 'any', 'any', 'presence', 'private', 'private', 'tickers', 'users', 'chat', 'malformed'])
     kinds = FOCUS['any' if focus == 'malformed' else focus]
     n = rng.choice([1, 2, 3, 5, 8, 12, 12, rng.randint(1, MAX_LEN)])
@@ -1025,7 +1087,9 @@ class C19(Property):
             'notification addressed the same room or the same user; distinct = distinct canonical case')
     assumptions = [
         'the application keeps a reference to every user it observes (the harness holds the three User objects from the '
-        '`hold` op on); eviction of unreferenced users from the WeakValueDictionary is not part of the property',
+        '`hold` op on); eviction of unreferenced users from the WeakValueDictionary is outside the modelled alphabet — a '
+        'monitor-only family (`evict`: nobody but the rooms holds users) judges the privilege flag of users that were dropped '
+        'and referenced again: it must be the last word of the server about the user or membership of the announced set',
         'messages carry enum values in enum fields (status 0..2, upload permissions 0..3) — on other values a handler '
         'dies half-way with ValueError: modelled and compared, but outside the replica theorem and the monitor',
         'RoomList user counts (Room.user_count) are exercised, not modelled',
@@ -1100,13 +1164,13 @@ class C19(Property):
                             c, il[k] if k < len(il) else None, model[i][k] if k < len(model[i]) else None,
                             f'line #{k} {c["ops"][k - 1] if 0 < k <= len(c["ops"]) else ""}'))
                 if len(res.violations) < 2000:
-                    res.violations += _monitor(c, obs)
-                if len(res.samples) < 3 and 3 <= len(c['ops']) <= 6 and c['focus'] not in ('witness', 'local'):
+                    res.violations += (_monitor_evict if c['focus'] == 'evict' else _monitor)(c, obs)
+                if len(res.samples) < 3 and 3 <= len(c['ops']) <= 6 and c['focus'] not in ('witness', 'local', 'evict'):
                     res.samples.append({'case': c, 'impl': _impl_lines(c, obs)[1:]})
         return res
 
     def replay(self, case):
-        return _monitor(case, _eval_case(case))
+        return (_monitor_evict if case.get('focus') == 'evict' else _monitor)(case, _eval_case(case))
 
     def known_witnesses(self):
         return [('C19-replica-operatorGranted-operators', W_OPERATOR), ('C19-replica-joinRoom-users', W_JOIN)]
